@@ -140,6 +140,8 @@ type SimDA struct {
 	AutoAdvance bool
 	// Outage: with no script entry, every submission fails with a generic error (the DA node is unavailable).
 	Outage bool
+	// ReadOutage: with no script entry, every listing fails with a generic error (readers cannot reach the DA node).
+	ReadOutage bool
 	// MaxBlobBytes > 0 models a DA with a total-size limit: blobs beyond it are not taken (prefix).
 	MaxBlobBytes uint64
 	// EmptyStyle: how an existing but empty height is reported: 0 = empty id list, 1 = ErrBlobNotFound, 2 = nil result
@@ -459,6 +461,9 @@ func (d *SimDA) getIDs(ctx context.Context, by string, epoch int, height uint64)
 	d.mu.Lock()
 	defer d.mu.Unlock()
 	out := ReadOutcome{Kind: ReadOK}
+	if d.ReadOutage {
+		out = ReadOutcome{Kind: ReadListErr}
+	}
 	if s := d.ReadScript[height]; len(s) > 0 {
 		out = s[0]
 		d.ReadScript[height] = s[1:]
